@@ -24,6 +24,7 @@ RULE = (
     "snapshot), no symbol stranded without referent, still serializable. "
     "non-trivial = at least one sanitizer pass on a rewritten module; "
     "distinct = shape signature x number of fault points."
+    " Patches may carry real alignment directives."
 )
 ASSUMPTIONS = [
     "faults are injected only at patch callbacks (as the property says)",
